@@ -539,3 +539,62 @@ Fixpoint carries_from (G:list srev) (cur:str -> str -> Prop) (todo:list (str*str
   end.
 Definition orig_label (G:list srev) (x L:str) : Prop := exists r, find_rev G x = Some r /\ In L (s_labels r).
 Definition carries (G:list srev) (oracle:list (str*str)) : str -> str -> Prop := carries_from G (orig_label G) oracle.
+
+(* ====================================================================== the proved class, as a boolean on the input
+   (C16_model_holds: inclass_C16 i = true -> C16_holds i (run i)) *)
+Fixpoint nodups (l:list str) : bool := match l with [] => true | a :: r => negb (mems a r) && nodups r end.
+Definition legalb (x:str) : bool :=
+  nonempty x && forallb (fun c => negb (N.eqb c c_at || N.eqb c c_plus || N.eqb c c_minus)) x
+  && negb (streqb x s_head || streqb x s_heads || streqb x s_base).
+(* a topological rank along down_revision, computed: the history is acyclic iff it is strictly decreasing *)
+Fixpoint rank_fuel (G:list srev) (fuel:nat) (x:str) : nat :=
+  match fuel with
+  | O => 0
+  | S f => match down_of G x with
+           | [] => 0
+           | ps => S (fold_right (fun p acc => Nat.max (rank_fuel G f p) acc) 0 ps)
+           end
+  end.
+Definition rankedb (G:list srev) : bool :=
+  forallb (fun r => forallb (fun d => rank_fuel G (length G) d <? rank_fuel G (length G) (s_id r)) (s_down r)) G.
+Definition wfGb (G:list srev) : bool :=
+  nodups (ids G) && forallb (fun r => forallb (fun d => mems d (ids G)) (s_down r)) G && forallb legalb (ids G).
+Definition all_labels (G:list srev) : list str := flat_map s_labels G.
+(* a name the theorems cover: a full id, a branch label, or a partial id under ids_len_ge4 /\ labels_prefix_free *)
+Definition name_okb (G:list srev) (n:str) : bool :=
+  nonempty n &&
+  (mems n (ids G) || (match r_label_owner G n with Some _ => true | None => false end)
+   || (forallb (fun x => 4 <=? length x) (ids G) && forallb (fun l => negb (startswith l n)) (all_labels G))).
+Definition optopt_eqb (a b:option (option str)) : bool :=
+  match a, b with
+  | None, None => true
+  | Some x, Some y => optstr_eqb x y
+  | _, _ => false
+  end.
+Definition qclassb (G:list srev) (cur:list str) (q:str) : bool :=
+  match parse_ident q with
+  | None => true                                                   (* not of the grammar: nothing is claimed *)
+  | Some i =>
+      (match i_lbl i with Some L => name_okb G L | None => true end) &&
+      (match i_sym i with Some (RName n) => name_okb G n | _ => true end) &&
+      match i_rel i, i_sym i, i_lbl i with
+      | None, Some (RName n), Some L =>
+          (* the unchecked-label finding: covered only where the label check would not change the downgrade target *)
+          optopt_eqb (r_one G (Some L) (RName n)) (r_one G None (RName n))
+      | Some z, None, Some L =>
+          (* label@+N with a non-empty version table goes through _normalized_down_revisions: not covered;
+             label@-N is covered when the version table is empty or some current revision is on the branch *)
+          if (0 <? z)%Z then negb (nonempty cur)
+          else match r_name G L with
+               | Some b => negb (nonempty cur) || nonempty (filter (r_lineage G b) cur)
+               | None => true
+               end
+      | _, _, _ => true
+      end
+  end.
+Definition inclass_C16 (i:c16_in) : bool :=
+  wfGb (i_revs i) && rankedb (i_revs i) && load_ok (i_revs i) &&
+  (match load_in i with Ok _ => true | Err _ => false end) &&
+  forallb nonempty (all_labels (i_revs i)) &&
+  forallb (fun c => mems c (ids (i_revs i)) && all_word c) (i_cur i) &&
+  forallb (qclassb (i_revs i) (i_cur i)) (i_queries i).
